@@ -144,6 +144,9 @@ def evaluate(sdir, checks, tier, confirm=True):
 
 
 def main():
+    import fcntl
+    lock = open("/tmp/evalrepo.lock", "w")
+    fcntl.flock(lock, fcntl.LOCK_EX)      # /tmp/evalrepo and /tmp/evalsb are shared by all self-test tools: one user at a time
     a = sys.argv[1:]
     opts = {"--checks": None, "--tier": "quick"}
     pos = []
